@@ -1,7 +1,14 @@
-/- helper lemmas for TjdProps/C08.lean, C09.lean, C10.lean (equivariance / invariance) -/
+/- helper lemmas for TjdProps/C08.lean, C09.lean, C10.lean (equivariance / invariance).
+   The lemmas live in EquivBase (lists, permutations, sums), EquivC08 (orthogonal change of coordinates,
+   column layout), EquivConfig (ConFIG), EquivC09 (row scaling), EquivC10 (row permutations). -/
 import Mathlib.Algebra.Order.Field.Basic
 import TjdModel.Agg.Spec2
 import TjdLemmas.QPLemmas
+import TjdLemmas.EquivBase
+import TjdLemmas.EquivC08
+import TjdLemmas.EquivConfig
+import TjdLemmas.EquivC09
+import TjdLemmas.EquivC10
 namespace Tjd.Agg
 
 end Tjd.Agg
